@@ -18,8 +18,15 @@ import tempfile
 
 import numpy as np
 
-LEAN_MODULES = ["PyomaVerif.Props.C15", "PyomaVerif.Mutants.C15"]
+from common import wiring_pre_build as pre_build  # noqa: E402,F401  (regenerates Generated/Wiring.lean from the tested tree)
+
+LEAN_MODULES = ["PyomaVerif.Props.C15", "PyomaVerif.Mutants.C15", "PyomaVerif.Props.WiringGuard"]
 THEOREMS = [
+    # class-layer wiring, regenerated from /repo on every run (translate_wiring.py)
+    "PV.WiringGuard.C15_mpe_guarded_from_source",
+    "PV.WiringGuard.C15_mpe_from_plot_guarded_from_source",
+    "PV.WiringGuard.C15_guard_sites",
+    "PV.WiringGuard.C15_AllGuarded_from_source",
     "PV.C15.C15_gating_run_outcome",
     "PV.C15.C15_gating_run",
     "PV.C15.C15_gating_mpe_outcome",
